@@ -439,10 +439,15 @@ pub open spec fn seg_marked(pager: &Pager, meta: u64, s: Set<u64>) -> bool {
 //@| assert(records_per_page == 512);
 //@| assert(page_count == (len as int + 512 - 1) / 512);
 //@| assert(page_count * 512 >= len && page_count <= len / 512 + 1) by (nonlinear_arith) requires page_count == (len as int + 512 - 1) / 512, len >= 0;
+//@| assert((page_count - 1) * 512 < len) by (nonlinear_arith) requires page_count == (len as int + 512 - 1) / 512, len > 0;
 //@loop 1 iter it1
-//@| invariant records_per_page == 512, page_count * 512 >= len, page_count <= len / 512 + 1, len == pager.meta.i2e_len, start.0 == pager.meta.i2e_start_page_id, start.0 < 65536,
+//@| invariant records_per_page == 512, page_count * 512 >= len, page_count <= len / 512 + 1, (page_count - 1) * 512 < len, len == pager.meta.i2e_len, start.0 == pager.meta.i2e_start_page_id, start.0 < 65536,
 //@|     reach(&reachable).contains(0) && reach(&reachable).contains(1),
 //@|     forall|i: int| 0 <= i < it1.index@ ==> reach(&reachable).contains(#[trigger] ((start.0 + i) as u64)),
+// C28.reach.node_table_exact — only pages that hold at least one record of the node table are marked for it
+// (a page past the table is not allocated, and the copy would refuse it)
+//@proof before 1 "reachable.insert(PageId::new(start.as_u64() + i));"
+//@| assert(i * 512 < len) by (nonlinear_arith) requires i <= page_count - 1, (page_count - 1) * 512 < len, i >= 0;
 //@loop 5 iter it2
 //@| invariant
 //@|     forall|j: int| 0 <= j < it2.index@ ==> seg_marked(pager, #[trigger] roots.segments@[j].meta_page_id, reach(&reachable)),
